@@ -173,6 +173,7 @@ def build(gen_src, sidecars, annotate=None, report=None, user_side=None, shard=N
              _shard_lib(read(os.path.join(CONTRACTS, "model.vlib")), shard),
              _shard_lib(read(os.path.join(CONTRACTS, "specs.vlib")), shard),
              _shard_lib(read(os.path.join(CONTRACTS, "lemmas.vlib")), shard),
+             _shard_lib(read(os.path.join(CONTRACTS, "theorems.vlib")), shard),
              "// ===== extracted from the emitted parser (E1-E9) with contracts merged =====\n",
              text,
              "\n// ===== user side =====\n",
